@@ -539,6 +539,66 @@ def handwritten_renderings(ctx):
                 ctx.fail("reply decoded differently from the abstract value", meta, repr(dec), repr(["C", 5]), kind="reply")
 
 
+def parts_attribute_and_element_types(ctx):
+    """(a) A soap:body that lists its parts (parts="...") - in any order, or all of them - means the same as one that
+    does not: parameters and request children follow the order of the wsdl:message. (b) A global element whose type
+    is a named complexType and the same element with the type written inline: the same members under the dotted
+    path, the same request."""
+    msgs = ('<wsdl:message name="fIn"><wsdl:part name="a" type="xsd:string"/><wsdl:part name="b" type="xsd:int"/>'
+            '<wsdl:part name="c" type="xsd:string"/></wsdl:message>')
+    results = {}
+    for parts_attr in (None, "a b c", "c b a", "b a c"):
+        w = wsdlkit.wsdl_doc("", style="rpc", in_parts=[("a", "type", "xsd:string"), ("b", "type", "xsd:int"),
+                                                       ("c", "type", "xsd:string")]).decode()
+        if parts_attr is not None:
+            assert w.count("<wsdl:input><soap:body ") == 1
+            w = w.replace("<wsdl:input><soap:body ", '<wsdl:input><soap:body parts="%s" ' % parts_attr, 1)
+        meta = {"stream": "soap-body-parts", "parts": parts_attr}
+        ctx.case(common.canon(meta), True)
+        try:
+            c = wsdlkit.client(w.encode(), nosend=True)
+            sd = sd_fingerprint(c)
+            env = wsdlkit.envelope_bytes(c.service.f("va", 7, "vc"))
+            wrapper = xmlread.find1(xmlread.parse(env), "Body")["children"][0]
+            results[parts_attr] = [sd, [[k["name"][1], k.get("text")] for k in wrapper["children"]]]
+        except Exception as e:
+            results[parts_attr] = "%s: %s" % (type(e).__name__, e)
+        want = [[["f", ["a", "b", "c"]]], [["a", "va"], ["b", "7"], ["c", "vc"]]]
+        if results[parts_attr] != want:
+            ctx.fail("operations / parameter names differ from the abstract interface", meta, results[parts_attr], want,
+                     kind="sd")
+    inner = ('<xsd:sequence><xsd:element name="id" type="xsd:string"/><xsd:element name="item" type="x:Item" '
+             'maxOccurs="unbounded"/></xsd:sequence>')
+    item = ('<xsd:complexType name="Item"><xsd:sequence><xsd:element name="sku" type="xsd:string"/><xsd:element name="n" '
+            'type="xsd:int"/></xsd:sequence></xsd:complexType>')
+    named = item + '<xsd:complexType name="OrderT">%s</xsd:complexType><xsd:element name="Order" type="x:OrderT"/>' % inner
+    anon = item + '<xsd:element name="Order"><xsd:complexType>%s</xsd:complexType></xsd:element>' % inner
+    got = {}
+    for style, schema in (("named", named), ("anonymous", anon)):
+        meta = {"stream": "element-type-renderings", "style": style}
+        ctx.case(common.canon(meta), True)
+        try:
+            c = wsdlkit.client(wsdlkit.wsdl_doc(schema, "Order", None), nosend=True)
+            paths = {}
+            for nm in ("Order.item", "Order.item.sku", "Order"):
+                try:
+                    paths[nm] = strip_classes(K.normal(c.factory.create("{%s}%s" % (wsdlkit.TNS, nm))))
+                except Exception as e:
+                    paths[nm] = type(e).__name__
+            env = wsdlkit.envelope_bytes(c.service.f("o1", [{"sku": "s", "n": 2}]))
+            body = xmlread.find1(xmlread.parse(env), "Body")["children"][0]
+            got[style] = [paths, xmlread.infoset({"name": body["name"], "attrs": {}, "children": body["children"],
+                                                  "text": body.get("text")}) if False else
+                          [[k["name"][1], k.get("text"), [[g["name"][1], g.get("text")] for g in k["children"]]]
+                           for k in body["children"]]]
+        except Exception as e:
+            got[style] = "%s: %s" % (type(e).__name__, e)
+    if got.get("named") != got.get("anonymous") or not isinstance(got.get("named"), list) or \
+            got["named"][0].get("Order.item") in ("TypeNotFound", None):
+        ctx.fail("two renderings of one interface build different factory objects", {"stream": "element-type-renderings"},
+                 repr(got.get("named"))[:900], repr(got.get("anonymous"))[:900], kind="factory")
+
+
 def prefix_numbering(ctx):
     """The generated prefixes (ns0, ns1, ...: what str(client) shows and factory.create('nsN:Type') understands) do not
     depend on the order in which a WSDL declares its schema blocks and types - with namespace sorting on or off."""
@@ -587,6 +647,7 @@ def run(ctx):
     simple_type_renderings(ctx)
     handwritten_renderings(ctx)
     prefix_numbering(ctx)
+    parts_attribute_and_element_types(ctx)
     ctx.sample({"graph": [[1, [2, 3]], [2, [1]], [3, []]], "note": "D14 witness graph"})
 
 
